@@ -156,6 +156,17 @@ pub fn contract_violation<D: Doc>(root: &Node<D>) -> Option<String> {
       if pv != want_pv {
         return Some(format!("prev() is not the preceding child at {:?}", c.range()));
       }
+      // the repeated cursor walks behind next_all()/prev_all() stay on the sibling list
+      let na: Vec<usize> = c.next_all().map(|x| x.node_id()).collect();
+      let want_na: Vec<usize> = kids[i + 1..].iter().map(|x| x.node_id()).collect();
+      if na != want_na {
+        return Some(format!("next_all() is not the list of following children at {:?}", c.range()));
+      }
+      let pa: Vec<usize> = c.prev_all().map(|x| x.node_id()).collect();
+      let want_pa: Vec<usize> = kids[..i].iter().rev().map(|x| x.node_id()).collect();
+      if pa != want_pa {
+        return Some(format!("prev_all() is not the reversed list of preceding children at {:?}", c.range()));
+      }
       let cr = c.range();
       if cr.start < last_end || cr.end > r.end || cr.start > cr.end {
         return Some(format!("child range not ordered/nested at {:?}", cr));
